@@ -122,14 +122,19 @@ func oracle(o runOut) (fs []failure) {
 	if r.Err != "" {
 		return nil // harness-level problem, handled by the caller
 	}
-	// stop returns promptly: bounded by in-flight work, not by the NAT timeout
-	if !r.StopReturned || r.StopMs >= watchMs(sc) {
+	// stop returns promptly: bounded by in-flight work, not by the NAT timeout.
+	// Violated when, natTimeout/2 (at most 4 s) after only in-flight work was left, Stop has not returned although the
+	// relay is quiescent (Stop parked in wg.Wait, downlink parked in the poller, nothing runnable): only the NAT timer
+	// can end that wait.  Runnable-but-starved goroutines (loaded machine) are in-flight work.
+	if r.TimerWait {
 		key := "stop-waits-nat-timeout:" + sc.Kind
 		if sc.Kind == "stop-flood" {
 			key = f9Key
 		}
-		fs = append(fs, failure{key, fmt.Sprintf("%s natTimeout=%dms: Stop returned=%v after %d ms (limit %d ms); quiescent=%v; relay goroutines at the limit: %s",
-			tag, sc.NatMs, r.StopReturned, r.StopMs, watchMs(sc), r.Quiescent, r.WaitDump)})
+		fs = append(fs, failure{key, fmt.Sprintf("%s natTimeout=%dms: Stop had not returned %d ms after only in-flight work was left and the relay was quiescent; it returned=%v after %d ms; relay goroutines then: %s",
+			tag, sc.NatMs, watchMs(sc), r.StopReturned, r.StopMs, r.WaitDump)})
+	} else if !r.StopReturned {
+		fs = append(fs, failure{"stop-not-returning:" + sc.Kind, fmt.Sprintf("%s natTimeout=%dms: Stop has not returned after %d ms, relay goroutines still busy: %s", tag, sc.NatMs, r.StopMs, r.WaitDump)})
 	}
 	// neither goroutines nor sockets leak
 	if r.StopReturned {
@@ -178,7 +183,7 @@ func observe(o runOut) map[string]string {
 		m["panic"] = "yes"
 		return m
 	}
-	if !r.StopReturned || r.StopMs >= watchMs(o.Sc) {
+	if r.TimerWait || !r.StopReturned {
 		m["stop"] = "timer"
 	} else if r.GEnd > r.GBase || r.FEnd > r.FBase {
 		m["leak"] = "yes"
@@ -272,6 +277,9 @@ func (e *engine) evaluate(o runOut) error {
 	rep.Count("kind=" + sc.Kind)
 	rep.Count("variant=" + variantOf(sc))
 	rep.Count("stop=" + obs["stop"])
+	if o.Res.BusyPolls > 0 && !o.Res.TimerWait {
+		rep.Count("stop-slow-but-busy(starved)")
+	}
 	if sc.Upstream != "direct" {
 		rep.Count("upstream=" + sc.Upstream)
 	}
@@ -371,8 +379,16 @@ func generate(r *common.Rng, n int, search bool, thorough bool) []Scenario {
 			add(Scenario{Kind: "evict", Server: v.server, Batch: v.batch, NatMs: natMsFor(v, "evict", rr), Clients: rr.Range(1, 2), Echo: true})
 		}
 		for i, v := range all {
-			rel := []int{-20, -5, 0, 1, 5, 150}[rr.Intn(6)]
-			add(Scenario{Kind: "stop-init", Server: v.server, Batch: v.batch, NatMs: natMsFor(v, "stop-init", rr), Upstream: "socks5-hold", ReleaseOK: (i+round)%2 == 0, ReleaseMs: rel, Clients: rr.Range(1, 2)})
+			// held initialisation released with success AFTER Stop was called: the initialiser's swap finds serverConn
+			// (early return that owns the socket); and, alternating, released before Stop (race of the two swaps) or with failure
+			after := []int{1, 5, 150}
+			any := []int{-20, -5, 0, 1, 5, 150}
+			add(Scenario{Kind: "stop-init", Server: v.server, Batch: v.batch, NatMs: natMsFor(v, "stop-init", rr), Upstream: "socks5-hold", ReleaseOK: true, ReleaseMs: after[rr.Intn(3)], Clients: rr.Range(1, 2)})
+			if (i+round)%2 == 0 {
+				add(Scenario{Kind: "stop-init", Server: v.server, Batch: v.batch, NatMs: natMsFor(v, "stop-init", rr), Upstream: "socks5-hold", ReleaseOK: true, ReleaseMs: []int{-20, -5, 0}[rr.Intn(3)], Clients: rr.Range(1, 2)})
+			} else {
+				add(Scenario{Kind: "stop-init", Server: v.server, Batch: v.batch, NatMs: natMsFor(v, "stop-init", rr), Upstream: "socks5-hold", ReleaseOK: false, ReleaseMs: any[rr.Intn(6)], Clients: rr.Range(1, 2)})
+			}
 			up := []string{"reject", "unresolvable", "refused"}[(i+round)%3]
 			add(Scenario{Kind: "init-fail", Server: v.server, Batch: v.batch, NatMs: natMsFor(v, "init-fail", rr), Upstream: up, Clients: rr.Range(1, 2)})
 		}
@@ -404,7 +420,7 @@ func main() {
 	rep.Rule = "engine udplife: one child process per life-cycle run of a real relay (service.Config -> Manager) on loopback; " +
 		"scenario = kind {evict, stop-idle, stop-flood, stop-init (held SOCKS5 handshake released ok/fail before/after Stop), init-fail (reject/unresolvable/refused)} x " +
 		"relay file {NAT, session} x {generic, mmsg} x server protocol x clients x echo; a run is non-trivial if at least one session was started or failed to initialise; " +
-		"distinct by scenario parameters and abstract outcome (stop prompt/timer, leak, evicted, restarted, panic)"
+		"distinct by scenario parameters and abstract outcome (stop prompt/timer, leak, evicted, restarted, panic); stop=timer iff Stop has not returned natTimeout/2 (<= 4 s, >= 2 s) after only in-flight work was left while the relay is quiescent (Stop in wg.Wait, downlink in the poller, nothing runnable)"
 	e := &engine{o: o, rep: rep, allowed: map[string]string{}}
 	var err error
 	if o.Driver != "" {
@@ -425,7 +441,7 @@ func main() {
 			}
 		}
 	} else {
-		scs = generate(common.NewRng(o.Seed), o.Budget(34, 600), o.Search, o.Thorough())
+		scs = generate(common.NewRng(o.Seed), o.Budget(40, 600), o.Search, o.Thorough())
 	}
 	if err == nil {
 		par := 5
